@@ -1,6 +1,7 @@
 package main
 
 import (
+	"runtime/pprof"
 	"fmt"
 	"os"
 	"sort"
@@ -12,6 +13,12 @@ import (
 )
 
 func main() {
+	if pf := os.Getenv("GOVC_PPROF"); pf != "" {
+		f, _ := os.Create(pf)
+		pprof.StartCPUProfile(f)
+		defer pprof.StopCPUProfile()
+		go func() { time.Sleep(100 * time.Second); pprof.StopCPUProfile(); f.Close(); os.Exit(3) }()
+	}
 	if len(os.Args) < 2 {
 		fmt.Fprintln(os.Stderr, "usage: govc check <property> [--tier quick|thorough] | verify <pkg> [func...] | replay <file>")
 		os.Exit(2)
